@@ -361,3 +361,108 @@ func ruleCOMPILEORDER(c *Ctx) {
 		c.Bad(rule2, key, opt.Pos(), "Optimize is called under {%s}; resolveWithLookahead stores lookahead pointers (<= -3) into Lalr value cells whenever lookahead > 1, and Optimize routes every negative value other than -1/-2 to log.Fatal(\"rule index out of range\")", strings.Join(condStrings(governing(opt.Block())), " ∧ "))
 	}
 }
+
+// DEDUP(marker-states): minimisation renumbers states with a map that is not monotone (state 7
+// may become 2 and state 9 become 2 as well, with 8 -> 5 in between), so the state list of a
+// marker must be de-duplicated against everything seen so far, not against the previous element
+// only: the append of a remapped state to Markers[i].States is governed by a failed lookup of that
+// very value in a set, which then records it. A repeated state becomes a duplicate key in the
+// generated marker map (the parser does not build).
+func ruleMARKERDEDUP(c *Ctx) {
+	const rule = "DEDUP(marker-states)"
+	key := "lalr.minimize:Markers.States"
+	f := c.SSAFunc("lalr", "minimize")
+	if f == nil {
+		c.Lost(rule, key, "function not found")
+		return
+	}
+	n := 0
+	for _, b := range f.Blocks {
+		for _, ins := range b.Instrs {
+			call, ok := ins.(*ssa.Call)
+			if !ok {
+				continue
+			}
+			bi, ok := call.Call.Value.(*ssa.Builtin)
+			if !ok || bi.Name() != "append" || len(call.Call.Args) != 2 {
+				continue
+			}
+			// the list being rebuilt starts as Markers[i].States[:0]
+			if !strings.Contains(normalizePhi(vpath(call.Call.Args[0])), "φ") && !strings.Contains(vpath(call.Call.Args[0]), ".States[") {
+				continue
+			}
+			isStates := false
+			var walk func(v ssa.Value, d int)
+			walk = func(v ssa.Value, d int) {
+				if d > 4 {
+					return
+				}
+				switch x := v.(type) {
+				case *ssa.Phi:
+					for _, e := range x.Edges {
+						walk(e, d+1)
+					}
+				case *ssa.Slice:
+					if strings.HasSuffix(vpath(x.X), ".States") {
+						isStates = true
+					}
+				}
+			}
+			walk(call.Call.Args[0], 0)
+			if !isStates {
+				continue
+			}
+			// the appended element (varargs slice of one element)
+			var elem ssa.Value
+			if sl, ok := call.Call.Args[1].(*ssa.Slice); ok {
+				if al, ok := sl.X.(*ssa.Alloc); ok && al.Referrers() != nil {
+					for _, r := range *al.Referrers() {
+						if ia, ok := r.(*ssa.IndexAddr); ok && ia.Referrers() != nil {
+							for _, r2 := range *ia.Referrers() {
+								if st, ok := r2.(*ssa.Store); ok {
+									elem = st.Val
+								}
+							}
+						}
+					}
+				}
+			}
+			if elem == nil {
+				continue
+			}
+			n++
+			guarded, recorded := false, false
+			var set ssa.Value
+			for _, g := range flattenConds(governing(b)) {
+				if g.Pol {
+					continue
+				}
+				v := g.V
+				if ex, ok := v.(*ssa.Extract); ok {
+					v = ex.Tuple
+				}
+				if lk, ok := v.(*ssa.Lookup); ok && lk.Index == elem {
+					guarded, set = true, lk.X
+				}
+			}
+			if guarded {
+				for _, in2 := range b.Instrs {
+					if mu, ok := in2.(*ssa.MapUpdate); ok && mu.Map == set && mu.Key == elem {
+						recorded = true
+					}
+				}
+			}
+			switch {
+			case guarded && recorded:
+				c.Ok(rule, key, call.Pos(), "a remapped state is appended only if it is not in the seen-set, and is then recorded")
+			case guarded:
+				c.Bad(rule, key, call.Pos(), "the seen-set that guards the append is never updated with the appended state")
+			default:
+				c.Bad(rule, key, call.Pos(), "remapped marker states are appended without a membership test against all states seen so far: the renumbering is not monotone, so a state can re-appear after another one and the generated marker map has a duplicate key")
+			}
+		}
+	}
+	if n < 1 {
+		c.Lost(rule, key, "the rebuild of Markers[i].States was not found")
+	}
+}
